@@ -296,7 +296,7 @@ static std::vector<vc::Point> execute(const Exec &e, const vo::Fail &fail, uint6
 static std::vector<Cfg> configs(const std::string &planner, bool thorough)
 {
     std::vector<Cfg> v;
-    std::vector<std::string> kinds = {"length", "integral", "work", "clearance", "multi"};
+    std::vector<std::string> kinds = {"length", "integral", "integralnl", "work", "clearance", "multi"};
     for (auto &map : std::vector<std::string>{"wallgap4", "maze6", "empty4"})
         for (auto &k : kinds)
         {
@@ -307,6 +307,8 @@ static std::vector<Cfg> configs(const std::string &planner, bool thorough)
                 thr = {-1, 1e6};
             if (!thorough && map == "empty4" && k != "length")
                 continue;
+            if (!thorough && k == "integralnl" && map != "wallgap4")
+                continue;  // the non-linear field: one map in the quick tier
             // option variants: the quick tier drives every objective on one map and the direction-sensitive ones on a second
             if (!thorough && (vpl::find(planner)->flags & vpl::VARIANT) && (map == "empty4" || (map == "maze6" && k != "length" && k != "work")))
                 continue;
